@@ -246,15 +246,8 @@ Proof.
       apply Z.div_le_upper_bound; lia. }
   pose proof (reverse_loop_spec 16 [] [] (lsd 15 n) []) as R. cbn [app] in R. rewrite !app_nil_r in R.
   change (alen []) with 0 in R.
-  replace (0 + alen (lsd 15 n) - 0) with (0 + alen (lsd 15 n) + 0) by lia.
-  replace (0 + alen (lsd 15 n)) with (0 + (0 + alen (lsd 15 n) + 0)) at 2 by lia.
-  replace 0 with (0 + 0) at 1 by lia.
-  apply R.
-  - pose proof (lsd_length 15 n). assert (length (lsd 15 n) / 2 <= 7)%nat; [|lia].
-    apply Nat.div_le_upper_bound; lia.
-  - reflexivity.
-  - apply lsd_bytes.
-  - lia.
+  rewrite <- R; [f_equal; lia | | reflexivity | apply lsd_bytes | lia].
+  pose proof (lsd_length 15 n). apply Nat.div_lt_upper_bound; lia.
 Qed.
 
 Lemma wasm_fromInt_neg n : -2147483647 <= n <= -1 -> wasm_fromInt n = Ok (45%N :: rev (lsd 15 (- n))).
@@ -286,15 +279,8 @@ Proof.
       apply Z.div_le_upper_bound; lia. }
   pose proof (reverse_loop_spec 16 [45%N] [] (lsd 15 m) []) as R. cbn [app] in R. rewrite !app_nil_r in R.
   change (alen [45%N]) with 1 in R. change (alen []) with 0 in R.
-  replace (1 + alen (lsd 15 m) - 1) with (0 + alen (lsd 15 m) + 0) by lia.
-  replace (1 + alen (lsd 15 m)) with (1 + (0 + alen (lsd 15 m) + 0)) by lia.
-  replace 1 with (1 + 0) at 1 by lia.
-  apply R.
-  - pose proof (lsd_length 15 m). assert (length (lsd 15 m) / 2 <= 7)%nat; [|lia].
-    apply Nat.div_le_upper_bound; lia.
-  - reflexivity.
-  - apply lsd_bytes.
-  - lia.
+  rewrite <- R; [f_equal; lia | | reflexivity | apply lsd_bytes | lia].
+  pose proof (lsd_length 15 m). apply Nat.div_lt_upper_bound; lia.
 Qed.
 
 Lemma lsd15_40 m : 0 <= m <= 2147483647 -> lsd 40 m = lsd 15 m.
@@ -302,7 +288,7 @@ Proof. intros H. apply lsd_indep; [pose proof pow15; lia | lia]. Qed.
 
 Theorem fromInt_wasm_correct : forall n, in32 n -> wasm_fromInt n = Ok (spec_dec n).
 Proof.
-  intros n Hn. apply in32_iff in Hn.
+  intros n Hn. unfold in32, MIN, MAX in Hn.
   destruct (Z.eq_dec n (-2147483648)) as [-> | Hmin]; [reflexivity|].
   destruct (Z.eq_dec n 0) as [-> | H0]; [reflexivity|].
   unfold spec_dec. destruct (Z.ltb_spec n 0).
@@ -331,7 +317,7 @@ Proof.
 Qed.
 Theorem fromInt_ts_correct : forall n, in32 n -> ts_fromInt (JInt n) = spec_dec n.
 Proof.
-  intros n Hn. apply in32_iff in Hn. apply js_String_dec.
+  intros n Hn. unfold in32, MIN, MAX in Hn. apply js_String_dec.
   assert (2147483648 < 10 ^ 40) by reflexivity. lia.
 Qed.
 Theorem fromInt_backends_agree : forall n, in32 n -> wasm_fromInt n = Ok (ts_fromInt (JInt n)).
